@@ -1,7 +1,125 @@
-(* placeholder while the streams are being brought up *)
-From Coq Require Import NArith List Bool String.
-Require Import Bytes NasValue NasCodec NasDesc NasCorr.
+(* C08 — NAS message codec is lossless for all message types the library dispatches.
+   Statements only; proofs in Proofs/NasCodecProofs.v (generic, over descriptors) and Proofs/NasDispatchProofs.v
+   (reflective, over Gen/NasDesc.v which is regenerated from the Go source on every check). *)
+From Coq Require Import NArith List Bool String Permutation.
+Require Import Bytes NasValue NasCodec NasDesc NasCorr NasCodecProofs NasDispatchProofs.
 Import ListNotations.
-Theorem c08_placeholder : List.length all_msg_descs = 45%nat.
+Open Scope list_scope.
+Open Scope N_scope.
+
+(* generic: any Encode*/Decode* pair accepted by desc_pair_ok is lossless on well-formed messages *)
+Theorem c08_pair_ok_implies_lossless :
+  forall d m, desc_pair_ok d = true -> wf_msg d m = true -> bind (nas_encode d m) (nas_decode d) = Ok m.
+Proof. exact roundtrip. Qed.
+Print Assumptions c08_pair_ok_implies_lossless.
+
+(* reflective: all 44 descriptors reachable from PlainNasEncode/PlainNasDecode are accepted, and the encode and
+   decode switches of nas.go agree *)
+Theorem c08_all_dispatched_pairs_ok : forallb desc_pair_ok dispatched_descs = true /\ library_ok = true.
+Proof. split; [exact all_pairs_ok | exact library_ok_true]. Qed.
+Print Assumptions c08_all_dispatched_pairs_ok.
+
+(* for every message type the library knows (every case of GmmMessageDecode / GsmMessageDecode), every well-formed
+   message: decode (encode m) = m; the encoding is mandatory part ++ optional IEs in table order; decoding the
+   mandatory part followed by the optional IEs in ANY order gives m *)
+Theorem c08_lossless_every_message_type :
+  forall h mt sname dfn, is_table h -> In (mt, (sname, dfn)) (h_decode h) ->
+  exists d, find_desc d_dec_func dfn all_msg_descs = Some d /\ d_name d = sname /\
+    lookupN mt (h_encode h) = Some (d_enc_func d) /\
+    forall m, wf_msg d m = true ->
+      bind (nas_encode d m) (nas_decode d) = Ok m /\
+      nas_encode d m = Ok (mand_part d m ++ List.concat (opt_chunks d m)) /\
+      (forall p, Permutation p (opt_chunks d m) -> nas_decode d (mand_part d m ++ List.concat p) = Ok m).
+Proof. exact lossless_all_types. Qed.
+Print Assumptions c08_lossless_every_message_type.
+
+(* canonical byte strings (= encodings of well-formed messages: mandatory part, optional IEs in table order, lengths
+   within capacity) are reproduced by decode-then-encode *)
+Theorem c08_reencode_canonical :
+  forall h mt sname dfn, is_table h -> In (mt, (sname, dfn)) (h_decode h) ->
+  exists d, find_desc d_dec_func dfn all_msg_descs = Some d /\
+    forall bs, canonical d bs -> bind (nas_decode d bs) (nas_encode d) = Ok bs.
+Proof. exact reencode_all_types. Qed.
+Print Assumptions c08_reencode_canonical.
+
+(* PlainNasDecode (PlainNasEncode x) = x for the nas.Message values whose header copy agrees with the message *)
+Theorem c08_plain_nas_roundtrip :
+  forall h mt sname dfn hdr m bs, is_table h -> In (mt, (sname, dfn)) (h_decode h) ->
+  nth (h_type_index h) hdr 0 = mt ->
+  forall d, find_desc d_dec_func dfn all_msg_descs = Some d -> wf_msg d m = true ->
+  nas_encode d m = Ok bs ->
+  firstn (h_header_len h) bs = hdr -> (h_header_len h <= List.length bs)%nat -> nth 0 bs 0 = epd_of h ->
+  lib_encode (mk_nas (kind_of h) hdr sname m) = Ok bs /\ lib_decode bs = Ok (mk_nas (kind_of h) hdr sname m).
+Proof. exact plain_roundtrip. Qed.
+Print Assumptions c08_plain_nas_roundtrip.
+
+(* unknown extended protocol discriminators and message types are reported as errors, in both directions *)
+Theorem c08_unknown_epd_is_error : forall epd tl, epd <> 126 -> epd <> 46 -> exists s, lib_decode (epd :: tl) = Err s.
+Proof. exact unknown_epd_is_error. Qed.
+Print Assumptions c08_unknown_epd_is_error.
+Theorem c08_unknown_5gmm_type_is_error :
+  forall sht mt tl, lookupN mt (h_decode gmm_dispatch) = None -> exists s, lib_decode (126 :: sht :: mt :: tl) = Err s.
+Proof. exact unknown_gmm_type_is_error. Qed.
+Print Assumptions c08_unknown_5gmm_type_is_error.
+Theorem c08_unknown_5gsm_type_is_error :
+  forall psi pti mt tl, lookupN mt (h_decode gsm_dispatch) = None -> exists s, lib_decode (46 :: psi :: pti :: mt :: tl) = Err s.
+Proof. exact unknown_gsm_type_is_error. Qed.
+Print Assumptions c08_unknown_5gsm_type_is_error.
+Theorem c08_short_input_is_error : forall bs, (1 <= List.length bs <= 2)%nat -> exists s, lib_decode bs = Err s.
+Proof. exact short_input_is_error. Qed.
+Print Assumptions c08_short_input_is_error.
+Theorem c08_unknown_type_encode_is_error :
+  forall x h, dispatch_of gmm_dispatch gsm_dispatch (n_kind x) = Some h ->
+  lookupN (nth (h_type_index h) (n_header x) 0) (h_encode h) = None -> exists s, lib_encode x = Err s.
+Proof. exact unknown_type_encode_is_error. Qed.
+Print Assumptions c08_unknown_type_encode_is_error.
+
+(* ---- non-vacuity and boundary examples (computed on the regenerated descriptors) *)
+Definition ex_est_req : msg := [
+  ("ExtendedProtocolDiscriminator", mk_fval true 0 0 [46]); ("PDUSessionID", mk_fval true 0 0 [5]);
+  ("PTI", mk_fval true 0 0 [1]); ("PDUSESSIONESTABLISHMENTREQUESTMessageIdentity", mk_fval true 0 0 [193]);
+  ("IntegrityProtectionMaximumDataRate", mk_fval true 0 0 [255; 255]);
+  ("PDUSessionType", mk_fval true 0 0 [145]); ("SSCMode", absent);
+  ("Capability5GSM", mk_fval true 40 2 [1; 2; 0; 0; 0; 0; 0; 0; 0; 0; 0; 0; 0]);
+  ("MaximumNumberOfSupportedPacketFilters", absent); ("AlwaysonPDUSessionRequested", absent);
+  ("SMPDUDNRequestContainer", absent);
+  ("ExtendedProtocolConfigurationOptions", mk_fval true 123 2 [170; 187])]%string.
+
+(* the hypotheses are satisfiable; the bytes are those the Go library produces for this message *)
+Example c08_hypotheses_met :
+  desc_pair_ok D_PDUSessionEstablishmentRequest = true /\ wf_msg D_PDUSessionEstablishmentRequest ex_est_req = true /\
+  nas_encode D_PDUSessionEstablishmentRequest ex_est_req = Ok [46;5;1;193;255;255;145;40;2;1;2;123;0;2;170;187] /\
+  In (193, ("PDUSessionEstablishmentRequest", "DecodePDUSessionEstablishmentRequest")%string) (h_decode gsm_dispatch) /\
+  opt_chunks D_PDUSessionEstablishmentRequest ex_est_req = [[145]; [40;2;1;2]; [123;0;2;170;187]] /\
+  nas_decode D_PDUSessionEstablishmentRequest ([46;5;1;193;255;255] ++ [123;0;2;170;187] ++ [145] ++ [40;2;1;2]) = Ok ex_est_req.
+Proof. repeat split; vm_compute; auto 20. Qed.
+
+(* the message types the library knows (so "unknown" above is everything else) *)
+Example c08_known_types :
+  map fst (h_decode gmm_dispatch) = [65;66;67;68;69;70;71;72;76;77;78;84;85;86;87;88;89;90;91;92;93;94;95;100;101;102;103;104] /\
+  map fst (h_decode gsm_dispatch) = [193;194;195;197;198;199;201;202;203;204;205;209;210;211;212;214] /\
+  List.length dispatched_descs = 44%nat /\
+  desc_pair_ok D_SecurityProtected5GSNASMessage = false.    (* 8.2.28: no dispatch entry, one statement not modelled *)
+Proof. repeat split; vm_compute; reflexivity. Qed.
+
+(* outside wf_msg: Len above the capacity of a fixed array makes the encoder panic (Octet[:Len]) ... *)
+Definition set_field (k:string) (v:fval) (m:msg) : msg := map (fun kv => if String.eqb (fst kv) k then (k, v) else kv) m.
+Example c08_len_above_capacity_panics :
+  nas_encode D_PDUSessionEstablishmentRequest
+    (set_field "Capability5GSM" (mk_fval true 40 14 [1;2;0;0;0;0;0;0;0;0;0;0;0]) ex_est_req) = Panic "slice bounds out of range".
 Proof. vm_compute. reflexivity. Qed.
-Print Assumptions c08_placeholder.
+(* ... and so does the decoder on a received length above capacity *)
+Example c08_received_len_above_capacity_panics :
+  nas_decode D_PDUSessionEstablishmentRequest [46;5;1;193;255;255;40;14;1;2;3] = Panic "slice bounds out of range".
+Proof. vm_compute. reflexivity. Qed.
+(* octets of a fixed array after Len are not transmitted: without the "zero after Len" clause of wf_msg the
+   message is not reproduced (it comes back with those octets cleared) *)
+Example c08_octets_after_len_are_lost :
+  let m := set_field "Capability5GSM" (mk_fval true 40 2 [1;2;9;0;0;0;0;0;0;0;0;0;0]) ex_est_req in
+  wf_msg D_PDUSessionEstablishmentRequest m = false /\
+  bind (nas_encode D_PDUSessionEstablishmentRequest m) (nas_decode D_PDUSessionEstablishmentRequest) = Ok ex_est_req.
+Proof. split; vm_compute; reflexivity. Qed.
+(* a repeated IE overwrites the earlier one; an IEI without case consumes one octet *)
+Example c08_duplicate_overwrites_unknown_skipped :
+  nas_decode D_PDUSessionEstablishmentRequest ([46;5;1;193;255;255] ++ [146] ++ [0] ++ [40;2;1;2] ++ [145] ++ [123;0;2;170;187]) = Ok ex_est_req.
+Proof. vm_compute. reflexivity. Qed.
